@@ -559,45 +559,52 @@ def rule_offsetof(chk, prog, tier):
 
 # ------------------------------------------------------------------ C06.e array types
 
+def array_type(prog, it, w, el, dims, vla=()):
+    """the type the real declarator() builds for `el a[d0][d1]...`: declaratortypes is replaced by a model that links one array type per dimension (what it does for `[n]` suffixes);
+    a dimension listed in `vla` gets a non-constant length expression"""
+    fn = prog.require_func('declarator', 'decl.c')
+    base = StructVal({('type',): mtype(w, el), ('qual',): 0, ('expr',): None})
+    def dtypes(i2, a, e):
+        result = a[1]
+        for k, n in enumerate(dims):
+            t = i2.call('mkarraytype', [None, 0, 0])
+            ty = w.t('int') if -2 ** 31 <= n < 2 ** 31 else (w.t('long') if n < 2 ** 63 else w.t('ulong'))
+            if k in vla:
+                t.obj.f[('u', 'array', 'length')] = w.mkexpr('EXPRIDENT', ty)
+            else:
+                t.obj.f[('u', 'array', 'length')] = w.mkexpr('EXPRCONST', ty, u__constant__u=n % 2 ** 64)
+            t.obj.f[('incomplete',)] = 0
+            prev = i2.load(result.obj, result.path + ('prev',))
+            i2.call('listinsert', [prev, Ptr(t.obj, ('link',))])
+        return None
+    it.models.update({'declaratortypes': dtypes, 'eval': lambda i2, a, e: a[0],
+                      'xmalloc': lambda i2, a, e: Ptr(Obj('heap@%s' % e.get('line'), 'heap'), ()),
+                      'error': lambda i2, a, e: (_ for _ in ()).throw(Terminal('error', cmodel.fmt_of(i2, a, 1))),
+                      'fatal': lambda i2, a, e: (_ for _ in ()).throw(Terminal('fatal', cmodel.fmt_of(i2, a, 0)))})
+    tokobj = it.gobj('tok'); tokobj.f[('loc', 'file')] = None; tokobj.f[('loc', 'line')] = 1; tokobj.f[('loc', 'col')] = 1
+    res = it.call(fn, [Ptr(Obj('scope', 'heap'), ()), base, None, None, 1])
+    return res.f[('type',)]
+
+
 def rule_arrays(chk, prog, tier):
     r = chk.rule('C06.e', 'an array type T[n] (possibly multi-dimensional) has size n*sizeof(T) and the alignment of T; a negative length, or a size that does not fit the size type, is diagnosed rather than wrapped', floor=100,
                  oracle='C11 6.7.6.2p1, 6.5.3.4')
-    fn = prog.require_func('declarator', 'decl.c')
     ELEM = {'char': (1, 1), 'short': (2, 2), 'int': (4, 4), 'long': (8, 8), 'ldouble': (16, 16), 'S12': (12, 4)}
-    LENS = [1, 2, 3, 7, 255, 65536, 2 ** 31, 2 ** 32 + 1, 2 ** 60, 2 ** 61, 2 ** 62, 2 ** 63 - 1, 2 ** 63, 2 ** 64 - 1, -1, -2 ** 31]
+    LENS = [0, 1, 2, 3, 7, 255, 65536, 2 ** 31, 2 ** 32 + 1, 2 ** 60, 2 ** 61, 2 ** 62, 2 ** 63 - 1, 2 ** 63, 2 ** 64 - 1, -1, -2 ** 31]
     jobs = []
     for el in ELEM:
         for n in LENS:
             jobs.append((el, (n,)))
-        for n, m in ((2, 3), (3, 2 ** 31), (2 ** 32, 2 ** 32), (2 ** 31, 2 ** 31), (2 ** 33, 2 ** 30), (5, 2 ** 62), (2 ** 62, 5), (1, 2 ** 64 - 1)):
+        for n, m in ((2, 3), (0, 3), (3, 0), (3, 2 ** 31), (2 ** 32, 2 ** 32), (2 ** 31, 2 ** 31), (2 ** 33, 2 ** 30), (5, 2 ** 62), (2 ** 62, 5), (1, 2 ** 64 - 1)):
             jobs.append((el, (n, m)))
     def work(job):
         el, dims = job
         def runner(it):
             w = World(prog, it=it, target='x86_64-sysv')
-            base = StructVal({('type',): mtype(w, el), ('qual',): 0, ('expr',): None})
-            def dtypes(i2, a, e):
-                # what declaratortypes does for `[n]` suffixes: one array type per dimension, inserted before the previous
-                result = a[1]
-                for n in dims:
-                    t = i2.call('mkarraytype', [None, 0, 0])
-                    signed = n < 0 or n < 2 ** 63 and n < 2 ** 31
-                    ty = w.t('int') if -2 ** 31 <= n < 2 ** 31 else (w.t('long') if n < 2 ** 63 else w.t('ulong'))
-                    t.obj.f[('u', 'array', 'length')] = w.mkexpr('EXPRCONST', ty, u__constant__u=n % 2 ** 64)
-                    t.obj.f[('incomplete',)] = 0
-                    prev = i2.load(result.obj, result.path + ('prev',))
-                    i2.call('listinsert', [prev, Ptr(t.obj, ('link',))])
-                return None
-            it.models.update({'declaratortypes': dtypes, 'eval': lambda i2, a, e: a[0],
-                              'xmalloc': lambda i2, a, e: Ptr(Obj('heap@%s' % e.get('line'), 'heap'), ()),
-                              'error': lambda i2, a, e: (_ for _ in ()).throw(Terminal('error', cmodel.fmt_of(i2, a, 1))),
-                              'fatal': lambda i2, a, e: (_ for _ in ()).throw(Terminal('fatal', cmodel.fmt_of(i2, a, 0)))})
-            tokobj = it.gobj('tok'); tokobj.f[('loc', 'file')] = None; tokobj.f[('loc', 'line')] = 1; tokobj.f[('loc', 'col')] = 1
-            res = it.call(fn, [Ptr(Obj('scope', 'heap'), ()), base, None, None, 1])
-            t = res.f[('type',)]
+            t = array_type(prog, it, w, el, dims)
             out = []
             while it.load(t.obj, t.path + ('kind',)) == ev(prog, 'TYPEARRAY'):
-                out.append((it.load(t.obj, t.path + ('size',)), it.load(t.obj, t.path + ('align',))))
+                out.append((it.load(t.obj, t.path + ('size',)), it.load(t.obj, t.path + ('align',)), bool(it.load(t.obj, t.path + ('prop',)) & ev(prog, 'PROPVM'))))
                 t = it.load(t.obj, t.path + ('base',))
             return out
         runs = explore(prog, runner, {}, max_runs=4, on_unsupported='keep')
@@ -612,13 +619,13 @@ def rule_arrays(chk, prog, tier):
         want = []; size = es; bad = False
         for n in reversed(dims):
             if n < 0: bad = True; break
-            size *= n
+            size *= n                             # a length of zero is the GNU zero-length array: size 0, not a variable-length array
             if size >= 2 ** 64: bad = True; break
-            want.insert(0, (size, ea))
+            want.insert(0, (size, ea, False))
         if bad:
             r.instance(outcome == 'terminal:error', key, 'decl.c:declarator', 'negative or unrepresentable array size must be diagnosed; cproc yields (size, align) %s' % (val,))
         else:
-            r.instance(outcome == 'return' and val == want, key, 'decl.c:declarator', 'expected (size, align) per dimension %s, cproc %s %s' % (want, outcome, val))
+            r.instance(outcome == 'return' and val == want, key, 'decl.c:declarator', 'expected (size, align, variably modified) per dimension %s, cproc %s %s' % (want, outcome, val))
     r.exhaustive = False
 
 
